@@ -97,9 +97,12 @@ type ViewParams struct {
 	EndKey       *string `json:"endkey,omitempty"`
 	ExclusiveEnd bool    `json:"exclusive_end,omitempty"`
 	Key          *string `json:"key,omitempty"`
+	NoReduce     bool    `json:"no_reduce,omitempty"` // reduce=false
 }
 
 // the family of map functions (their Gallina twins: Store.mapfn)
+const numMaps = 8 // map function ids: mapSources, then the same with a _count reduce
+
 var mapSources = []string{
 	`function(doc, meta) { if (doc !== null && typeof doc === "object" && typeof doc.a === "number") emit(doc.a, meta.id); }`,
 	`function(doc, meta) { emit(meta.id, null); }`,
@@ -112,7 +115,12 @@ type sgbucketDesignDoc = sgbucket.DesignDoc
 func mkDesignDoc(views []ViewDef) *sgbucket.DesignDoc {
 	dd := sgbucket.DesignDoc{Language: "javascript", Views: sgbucket.ViewMap{}}
 	for _, v := range views {
-		dd.Views[v.Name] = sgbucket.ViewDef{Map: mapSources[v.Map]}
+		// views 4..7 are views 0..3 with the reduce function _count
+		vd := sgbucket.ViewDef{Map: mapSources[v.Map%len(mapSources)]}
+		if v.Map >= len(mapSources) {
+			vd.Reduce = "_count"
+		}
+		dd.Views[v.Name] = vd
 	}
 	return &dd
 }
@@ -1384,8 +1392,11 @@ func execKvInner(in kvInput, scratch string, prog *kvProgress) (Case, error) {
 				if vp.ExclusiveEnd {
 					params["inclusive_end"] = false
 				}
+				if vp.NoReduce {
+					params["reduce"] = false
+				}
 				opT = C("SView", S(st.Coll), S(st.DDoc), S(st.View),
-					C("mkVparams", B(vp.Stale), B(vp.Descending), limT, jsonT(vp.StartKey), jsonT(vp.EndKey), B(!vp.ExclusiveEnd), jsonT(vp.Key)))
+					C("mkVparams", B(vp.Stale), B(vp.Descending), limT, jsonT(vp.StartKey), jsonT(vp.EndKey), B(!vp.ExclusiveEnd), jsonT(vp.Key), B(!vp.NoReduce)))
 				res, e := col.View(ctxBg, st.DDoc, st.View, params)
 				if e != nil {
 					respT = rErr(e)
